@@ -10,7 +10,8 @@ def run(ctx):
     ok_go, ok_drv = seqlib.build_and_prove(ctx, MODULE, extra_parts=["skeleton"])
     if ok_go:
         args = ["-seqs", "30", "-ops", "300", "-c09"] if ctx.tier == "thorough" else ["-seqs", "6", "-ops", "200", "-c09"]
-        lines, tr = seqlib.run_seq(ctx, args)
+        lines, tr = seqlib.run_seq(ctx, args + ["-locks"])
+        seqlib.two_phase(ctx, lines, ok_drv, "C09", "A request that fails after it gave a lock back and took it again may have written back, or left cached, state that is not the state before it")
         if lines is not None:
             seqlib.analyse(ctx, lines, tr, ok_drv, "C09")
             fails = [l for l in lines if " => " in l and l.rsplit(" => ", 1)[1].split()[0] not in ("0",)]
